@@ -53,7 +53,13 @@ fn gen_map(r: &mut Lcg, n_objects: usize) -> String {
                 let _ = writeln!(objs, "{px},{py},{t},1,{snd}");
             }
             6..=8 => {
-                let len = r.pick(&[20u32, 35, 50, 70, 90, 120, 180, 250, 400]);
+                // half of the sliders aim at a segment duration class of the path generator (<= 90, <= 120, <= 160, <= 200, > 400 ms per span)
+                let len = if r.n(2) == 0 {
+                    r.pick(&[20u32, 35, 50, 70, 90, 120, 180, 250, 400])
+                } else {
+                    let target = r.pick(&[70.0, 85.0, 100.0, 115.0, 140.0, 180.0, 190.0, 300.0, 450.0]);
+                    ((target * 100.0 * mult.parse::<f64>().unwrap() / beat_len) as u32).max(1)
+                };
                 let slides = r.pick(&[1u32, 1, 1, 2, 2, 3, 4, 5, 8, 12]);
                 let edge = if r.n(2) == 0 {
                     let e: Vec<String> = (0..=slides).map(|_| [0u32, 2, 4, 8, 12][r.n(5) as usize].to_string()).collect();
